@@ -889,10 +889,23 @@ impl Worker {
         };
 
         let written_bytes = batch.remaining_bytes;
+        let mut written_events = 0;
 
         while let Some(buf) = batch.current() {
             if let Err(err) = file.write_event(buf, self.separator) {
                 self.metrics.file_write_failed.increment();
+
+                // Events already written to this file won't be retried, so they
+                // need to be synced before the rest of the batch moves to a new file.
+                // If they can't be then the batch has failed like any other sync failure
+                if written_events > 0 {
+                    file.file
+                        .flush()
+                        .map_err(|e| emit_batcher::BatchError::no_retry(e))?;
+                    file.file
+                        .sync_all()
+                        .map_err(|e| emit_batcher::BatchError::no_retry(e))?;
+                }
 
                 span.complete_with(emit::span::completion::from_fn(|span| {
                     emit::warn!(
@@ -910,6 +923,7 @@ impl Worker {
             }
 
             batch.advance();
+            written_events += 1;
         }
 
         file.file
